@@ -920,6 +920,48 @@ pub fn cmd_xadd(m: &HashMap<String, String>) -> String {
 
 // ------------------------------------------------------------------ JIT bytes (C03/C12)
 
+/// compile only (twice, on two VMs): `compile engine=jit|cl prog=<hex> [helpers=..]` -> first outcome second outcome
+/// outcome = OK | ERR | VERIFIER (rejected by the verifier: not compiled)
+pub fn cmd_compile(m: &HashMap<String, String>) -> String {
+    let g = |k: &str| m.get(k).cloned().unwrap_or_default();
+    let engine = g("engine");
+    let prog = crate::unhex_pub(&g("prog"));
+    let mut helpers = vec![];
+    for h in g("helpers").split(',').filter(|s| !s.is_empty()) {
+        let (a, b) = h.split_once(':').unwrap();
+        helpers.push((parse_i(a) as u32, b.to_string()));
+    }
+    let t = m.get("timeout").map(|s| parse_i(s) as u32).unwrap_or(60);
+    forked(t, move || {
+        catch(move || {
+            let prog: &'static [u8] = Box::leak(prog.clone().into_boxed_slice());
+            let mut out = String::new();
+            for _round in 0..2 {
+                let mut vm = match rbpf::EbpfVmMbuff::new(Some(prog)) {
+                    Ok(vm) => vm,
+                    Err(_) => {
+                        out.push_str("VERIFIER ");
+                        continue;
+                    }
+                };
+                for (id, name) in &helpers {
+                    if let Some(f) = helper_by_name(name) {
+                        vm.register_helper(*id, f).unwrap();
+                    }
+                }
+                let r = match engine.as_str() {
+                    "jit" => jitc!(vm).map_err(|_| ()),
+                    #[cfg(feature = "cranelift")]
+                    "cl" => vm.cranelift_compile().map_err(|_| ()),
+                    _ => Err(()),
+                };
+                out.push_str(if r.is_ok() { "OK " } else { "ERR " });
+            }
+            out.trim_end().to_string()
+        })
+    })
+}
+
 pub fn cmd_jitbytes(_m: &HashMap<String, String>) -> String {
     "UNIMPLEMENTED".to_string()
 }
